@@ -37,6 +37,8 @@ def _present(idx, how):
         return tuple(idx)
     if how == "array":
         return np.array(idx, dtype=int)
+    if how.startswith("array_"):         # index arrays come in every integer width (np.argsort gives intp, a label column int8 ...)
+        return np.array(idx, dtype=getattr(np, how[6:]))
     if how == "range":
         step = (idx[1] - idx[0]) if len(idx) > 1 else 1
         return range(idx[0], idx[-1] + (1 if step > 0 else -1), step)
@@ -181,6 +183,10 @@ def check(case):
     if case.get("cscale") and (max(case["cscale"]) - min(case["cscale"])) >= 10:
         lab.append("mixed_units")
     lab.append("Ypres_" + case.get("Ypres", "list"))
+    if p >= 12:
+        lab.append("p_ge_12")
+    if p >= 17:
+        lab.append("p_ge_17")
     lab.append("Xpres_" + case.get("Xpres", "list"))
 
     # ---- marginal: exact index selection, requested order
@@ -213,9 +219,25 @@ def check(case):
             return ["discard_illconditioned"]
         tm, tc = _tols(len(Xi) + 1, norms)
         ratios = []
-        cd = must(lib(dist.conditional, _present(Y, case.get("Ypres", "list")), _present(Xi, case.get("Xpres", "list")),
-                      _xpresent(case["x"], case.get("xpres", "list"))), "conditional(Y, X, x)")
+        Yarg, Xarg = _present(Y, case.get("Ypres", "list")), _present(Xi, case.get("Xpres", "list"))
+        xarg = _xpresent(case["x"], case.get("xpres", "list"))
+        cd = must(lib(dist.conditional, Yarg, Xarg, xarg), "conditional(Y, X, x)")
         _compare(cd, m, c, tm, tc, "conditional(%s | %s = %s)" % (Y, Xi, case["x"]), ctx, ratios)
+        if isinstance(Xarg, np.ndarray) and isinstance(xarg, np.ndarray) and len(Xi) >= 2 and len(Y) >= 1:
+            # the caller re-uses its own index / value buffers: swaps two conditioning variables (and their values) in
+            # place, reverses Y in place if it can, and asks again with the same objects - the same conditional law
+            Xarg[[0, -1]] = Xarg[[-1, 0]]
+            xarg[[0, -1]] = xarg[[-1, 0]]
+            Yb = list(Y)
+            if isinstance(Yarg, np.ndarray):
+                Yarg[:] = Yarg[::-1].copy()
+                Yb = list(reversed(Y))
+            mb, cb, _, normsb = exact_conditional(mean, cov, Yb, [int(v) for v in Xarg], [Fraction(float(v)) for v in xarg])
+            tmb, tcb = _tols(len(Xi) + 1, normsb)
+            cdb = must(lib(dist.conditional, Yarg, Xarg, xarg), "conditional (caller's buffers edited in place)")
+            _compare(cdb, mb, cb, tmb, tcb, "conditional(%s | %s) with the same index / value arrays after an in-place swap"
+                     % (Yb, [int(v) for v in Xarg]), ctx, ratios)
+            lab.append("buffers_reused")
         lab.append("oracle_" + norms["form"])
         if norms["form"] == "schur_exact":
             lab.append("singular_sigma")
@@ -296,7 +318,7 @@ def _dist(draw, p_min=1, p_max=7):
 
 
 def _pres_for(draw, idx, allow_int=True):
-    kinds = ["list", "list", "tuple", "array"]
+    kinds = ["list", "list", "tuple", "array", draw(st.sampled_from(["array_int8", "array_uint8", "array_int16", "array_int32", "array_uint64"]))]
     if len(idx) == 1 and allow_int:
         kinds.append("int")
     if idx and (len(idx) == 1 or (idx[1] != idx[0] and all(idx[k + 1] - idx[k] == idx[1] - idx[0] for k in range(len(idx) - 1)))):
@@ -306,10 +328,25 @@ def _pres_for(draw, idx, allow_int=True):
 
 @st.composite
 def cond_case(draw):
-    p, B, mean = draw(_dist(2, 7) if draw(st.integers(0, 3)) == 0 else _dist(4, 7))
-    order = draw(st.permutations(list(range(p))))
-    ny = draw(st.integers(1, p - 1))
-    nx = draw(st.integers(1, p - ny)) if draw(st.integers(0, 9)) else 0
+    wide = draw(st.integers(0, 5)) == 0
+    if wide:
+        # many variables (12..40), few of them queried: index arithmetic on the positions, not on the values
+        p = draw(st.integers(12, 40))
+        r = draw(st.integers(1, 3))
+        B = [[draw(_q(8, 4)) for _ in range(r)] for _ in range(p)]
+        mean = [draw(_q(40, 8)) for _ in range(p)]
+        hi = draw(st.lists(st.integers(max(0, p - 6), p - 1), min_size=2, max_size=4, unique=True))      # the last labels take part
+        rest = draw(st.lists(st.integers(0, p - 1), min_size=0, max_size=3, unique=True))
+        order = list(dict.fromkeys(list(draw(st.permutations(hi))) + rest))
+        if draw(st.booleans()):
+            order = order[::-1]
+        ny = draw(st.integers(1, len(order) - 1))
+        nx = draw(st.integers(1, len(order) - ny)) if draw(st.integers(0, 9)) else 0
+    else:
+        p, B, mean = draw(_dist(2, 7) if draw(st.integers(0, 3)) == 0 else _dist(4, 7))
+        order = draw(st.permutations(list(range(p))))
+        ny = draw(st.integers(1, p - 1))
+        nx = draw(st.integers(1, p - ny)) if draw(st.integers(0, 9)) else 0
     Y, Xi = list(order[:ny]), list(order[ny:ny + nx])
     if draw(st.integers(0, 3)) == 0:
         Y = sorted(Y)
